@@ -71,13 +71,13 @@ namespace vf_coll
             return std::string(prop) + "/" + kind + "/" + what;
         }
 
-        std::unique_ptr<unit> fresh(placement where)
+        std::unique_ptr<unit> fresh(placement where, std::size_t max_node = 0)
         {
             std::unique_ptr<unit> u(new unit);
             keep.push_back(u->src);
             auto  bs   = u->src->fix_block_size(bs0);
             void* mem  = place_storage(u->obj, u->src->probe(), where);
-            u->obj.obj = u->src->template construct<P>(mem, maxn, bs);
+            u->obj.obj = u->src->template construct<P>(mem, max_node ? max_node : maxn, bs);
             u->src->check();
             return u;
         }
@@ -515,6 +515,7 @@ namespace vf_coll
 
         void do_move_construct(unit& u)
         {
+            also_scope moved("C12", "C01 C05 C15"); // the C01/C05/C15 oracles continue across the move: what they find here is C12's too
             op("move-construct");
             placed<P> n;
             auto      leaks0 = hl().leaks.size();
@@ -532,9 +533,11 @@ namespace vf_coll
 
         void do_move_assign(unit& u)
         {
+            also_scope moved("C12", "C01 C05 C15"); // the C01/C05/C15 oracles continue across the move: what they find here is C12's too
             bool used = r.chance(60);
             op("move-assign onto %s target", used ? "used" : "fresh");
-            auto t = fresh(placement::heap);
+            // (a target built for another maximum node size: the number of pools must move along with the pools)
+            auto t = fresh(placement::heap, r.chance(50) ? 0 : r.range(8, maxn));
             if (used)
             {
                 P&  tp = *t->obj;
@@ -589,6 +592,7 @@ namespace vf_coll
 
         void do_swap(unit& a, unit& b)
         {
+            also_scope moved("C12", "C01 C05 C15"); // the C01/C05/C15 oracles continue across the move: what they find here is C12's too
             op("swap");
             using std::swap;
             swap(*a.obj, *b.obj);
